@@ -56,6 +56,11 @@ StatField(X, stat, what) ==
     [] what = "Daily District Heating Demand"   -> QA(X, "surfaceplant.daily_heating_demand", a)
     [] what = "Geothermal Heating Production"   -> QA(X, "surfaceplant.dh_geothermal_heating", a)
     [] what = "Peaking Boiler Heat Production"  -> QA(X, "surfaceplant.dh_natural_gas_heating", a)
+    \* reservoir thermal energy storage (SUTRA writer)
+    [] what = "Storage Well Temperature"        -> QA(X, "wellbores.ProducedTemperature", a)
+    [] what = "Balance Well Temperature"        -> QA(X, "wellbores.Tinj", a)
+    [] what = "Annual Heat Stored"              -> QA(X, "reserv.AnnualHeatStored", a)
+    [] what = "Annual Heat Supplied"            -> QA(X, "reserv.AnnualHeatSupplied", a)
     [] OTHER -> NoField
 
 PlainField(X, sec, l) ==
@@ -222,6 +227,23 @@ PlainField(X, sec, l) ==
     [] l = "Percent Energy Devoted To Process"      -> Pct(X, "sdacgteconomics.EnergySplit")
     [] l = "Total Tonnes of CO2 Captured"           -> QV(X, "sdacgteconomics.CarbonExtractedTotal")
     [] l = "Total Cost of Capture"                  -> QA(X, "sdacgteconomics.S_DAC_GTCummCashFlow", "last")
+    \* reservoir thermal energy storage (SUTRAOutputs.py)
+    [] l = "Direct-Use heat breakeven price"        -> QV(X, "economics.LCOH")
+    [] l = "Lifetime Average Well Flow Rate"        -> QA(X, "wellbores.ProductionWellFlowRates", "absmean")
+    [] l = "Average Round-Trip Efficiency"          -> QA(X, "reserv.AnnualRTESEfficiency", "mean")
+    [] l = "Average RTES Heating Production"        -> QA(X, "surfaceplant.HeatProduced", "mean")
+    [] l = "Average Auxiliary Heating Production"   -> QA(X, "surfaceplant.AuxiliaryHeatProduced", "mean")
+    [] l = "Average Annual RTES Heating Production" -> QA(X, "surfaceplant.AnnualHeatProduced", "mean")
+    [] l = "Average Annual Auxiliary Heating Production" -> QA(X, "surfaceplant.AnnualAuxiliaryHeatProduced", "mean")
+    [] l = "Average Annual Total Heating Production"     -> QA(X, "surfaceplant.AnnualTotalHeatProduced", "mean")
+    [] l = "Average Annual Electricity Use for Pumping"  -> QA(X, "surfaceplant.PumpingkWh", "mean")
+    [] l = "Drilling and Completion Costs"          -> QV(X, "economics.Cwell")
+    [] l = "Drilling and Completion Costs per Well" -> [x |-> RDiv(Agg(X, "economics.Cwell", "v"), Wells(X)), u |-> UnitOf(X, "economics.Cwell")]
+    [] l = "Auxiliary Heater Cost"                  -> QV(X, "economics.peakingboilercost")
+    [] l = "Total Capital Costs"                    -> QV(X, "economics.CCap")
+    [] l = "Average annual auxiliary fuel cost"     -> QA(X, "economics.annualngcost", "mean")
+    [] l = "Average annual pumping cost"            -> QA(X, "economics.annualpumpingcosts", "mean")
+    [] l = "Total average annual O&M costs"         -> QA(X, "economics.Coam", "mean")
     [] OTHER -> NoField
 
 \* f is one lexed line: section, whitespace-normalised label, and the label split at its first blank (stat, what)
